@@ -168,19 +168,63 @@ func c30CleanupWindow(c *core.Ctx) {
 		return
 	}
 	n := 0
-	core.Instrs(fn, func(in ssa.Instruction) {
+	// the deleting loop may live in a method of the storer that closePersisters hands the first epoch to forget:
+	// the key deleted there is made of the method's parameters, which stand for what they were handed
+	type delSite struct {
+		call *ssa.Call
+		bind func(ssa.Value) ssa.Value
+	}
+	var sites []delSite
+	isDel := func(in ssa.Instruction) *ssa.Call {
 		call, ok := in.(*ssa.Call)
 		if !ok {
-			return
+			return nil
 		}
 		b, ok := call.Call.Value.(*ssa.Builtin)
 		if !ok || b.Name() != "delete" || !isFieldOf(call.Call.Args[0], "persistersMapByEpoch") {
+			return nil
+		}
+		return call
+	}
+	core.Instrs(fn, func(in ssa.Instruction) {
+		if d := isDel(in); d != nil {
+			sites = append(sites, delSite{d, func(v ssa.Value) ssa.Value { return v }})
 			return
 		}
+		hc, ok := in.(*ssa.Call)
+		if !ok || hc.Call.StaticCallee() == nil || hc.Call.StaticCallee().Blocks == nil || hc.Call.StaticCallee().Pkg != fn.Pkg || hc.Call.StaticCallee() == fn {
+			return
+		}
+		h := hc.Call.StaticCallee()
+		core.Instrs(h, func(hin ssa.Instruction) {
+			if d := isDel(hin); d != nil {
+				c.Analysed(fname(h))
+				sites = append(sites, delSite{d, func(v ssa.Value) ssa.Value {
+					for i, p := range h.Params {
+						if ssa.Value(p) == v && i < len(hc.Call.Args) {
+							return hc.Call.Args[i]
+						}
+					}
+					return v
+				}})
+			}
+		})
+	})
+	for _, site := range sites {
+		call, in := site.call, ssa.Instruction(site.call)
 		n++
 		fromKeep := false
 		var others []string
+		reach := map[ssa.Value]bool{}
 		for x := range core.BackwardReachPure(call.Call.Args[1]) {
+			reach[x] = true
+			if y := site.bind(x); y != x {
+				for z := range core.BackwardReachPure(y) {
+					reach[z] = true
+				}
+			}
+		}
+		for x := range reach {
 			if _, f := core.FieldLoad(x); f != nil {
 				if f == keep {
 					fromKeep = true
@@ -193,7 +237,7 @@ func c30CleanupWindow(c *core.Ctx) {
 		c.Check(fromKeep && len(others) == 0, "C30/cleanup-window-from-epochs-to-keep", fmt.Sprintf("PruningStorer.closePersisters/delete#%d", n), in.Pos(),
 			"the epoch forgotten is computed from the current epoch and numOfEpochsToKeep only",
 			fmt.Sprintf("the epoch forgotten by the cleanup is computed from %v (numOfEpochsToKeep involved: %v): epochs inside the keep window are dropped, GetFromEpoch fails for data that was promised", others, fromKeep))
-	})
+	}
 	c.Floor("C30/cleanup-window-from-epochs-to-keep", 1)
 }
 
